@@ -42,7 +42,7 @@ func main() {
 	}
 }
 
-const caseTimeout = 10 * time.Second
+const caseTimeout = 4 * time.Second
 
 // runWithWatchdog runs f; ok is false if it did not return in time.
 func runWithWatchdog(f func() string) (res string, ok bool) {
